@@ -135,6 +135,7 @@ pub fn observe(shard: &mut Shard, hist: &mut History, obs: &Obs) {
             m_c02_failure_shape(shard, obs, commit, &touched);
         }
         m_c43_non_fungibles(shard, hist, obs, commit);
+        m_c43_data_updates(shard, obs, commit, &touched);
         m_c44_clock(shard, hist, obs);
         m_c49_limits(shard, obs, commit, &touched);
         m_c51_locked(shard, hist, obs, commit, &touched);
@@ -540,6 +541,48 @@ fn m_c02_failure_shape(shard: &mut Shard, obs: &Obs, commit: &CommitResult, touc
 // ------------------------------------------------------------------------------------------
 // C43: non-fungible ids minted at most once, with the resource's id type
 // ------------------------------------------------------------------------------------------
+fn nf_mutable_field_indices(db: &Db, resource: &NodeId) -> Option<BTreeSet<usize>> {
+    let bytes = raw(db, resource, MAIN_BASE_PARTITION, &NonFungibleResourceManagerField::MutableFields.into())?;
+    let s: NonFungibleResourceManagerMutableFieldsFieldSubstate = scrypto_decode(&bytes).ok()?;
+    Some(s.into_payload().fully_update_and_into_latest_version().mutable_field_index.values().cloned().collect())
+}
+
+/// C43 (data half): a change of a stored non-fungible data entry touches only mutable fields.
+fn m_c43_data_updates(shard: &mut Shard, obs: &Obs, commit: &CommitResult, touched: &[Touched]) {
+    for t in touched {
+        if t.node.entity_type() != Some(EntityType::GlobalNonFungibleResourceManager) || t.old == t.new {
+            continue;
+        }
+        let (Some(old), Some(new)) = (&t.old, &t.new) else { continue };
+        // only entries of the data key-value collection
+        let is_kv_entry = commit
+            .system_structure
+            .substate_system_structures
+            .get(&t.node)
+            .and_then(|p| p.get(&t.partition))
+            .map(|subs| subs.iter().any(|(k, s)| SpreadPrefixKeyMapper::to_db_sort_key(k) == t.sort_key && matches!(s, SubstateSystemStructure::ObjectKeyValuePartitionEntry(_))))
+            .unwrap_or(false);
+        if !is_kv_entry {
+            continue;
+        }
+        let (Ok(o), Ok(n)) = (scrypto_decode::<KeyValueEntrySubstate<ScryptoValue>>(old), scrypto_decode::<KeyValueEntrySubstate<ScryptoValue>>(new)) else { continue };
+        let (Some(ov), Some(nv)) = (o.into_value(), n.into_value()) else { continue };
+        let (ScryptoValue::Tuple { fields: of }, ScryptoValue::Tuple { fields: nf }) = (&ov, &nv) else { continue };
+        shard.count("c43:data_entry_updates_examined");
+        let mutable = nf_mutable_field_indices(obs.pre, &t.node).unwrap_or_default();
+        let mut changed: Vec<usize> = vec![];
+        for i in 0..of.len().max(nf.len()) {
+            if of.get(i) != nf.get(i) {
+                changed.push(i);
+            }
+        }
+        if of.len() != nf.len() || changed.iter().any(|i| !mutable.contains(i)) {
+            shard.violation_for("C43", "immutable-non-fungible-field-changed", detail(obs.meta, json!({"resource": node_hex(&t.node), "sort_key": hex(&t.sort_key.0),
+                "changed_field_indices": changed, "mutable_field_indices": mutable.iter().collect::<Vec<_>>(), "old": format!("{:?}", ov), "new": format!("{:?}", nv)})));
+        }
+    }
+}
+
 fn m_c43_non_fungibles(shard: &mut Shard, hist: &mut History, obs: &Obs, commit: &CommitResult) {
     for (id, data) in &commit.application_events {
         if event_name(id) != "MintNonFungibleResourceEvent" {
